@@ -251,7 +251,7 @@ def butter_real(ctx):
                {'values': 'sin(2*pi*2*t), n=4000', 'dt': 0.01, 'cut_off': [0.5, 10.0], 'container': 'ndarray'}, detail=res)
     n_cases = 200 if ctx.tier == 'quick' else 1500
     for i in range(n_cases):
-        dt = rng.choice([0.01, 0.005, 0.02])
+        dt = rng.choice([0.01, 0.005, 0.02, 0.03, 0.015, 0.04, 0.0125])      # also steps whose reciprocal is not an integer
         ftype, cut, probes, flow = filt_setup(rng, dt)
         order = 1 + i % 4
         mname, mval = MODES[(i // 4) % 4]
